@@ -7,6 +7,11 @@ ALL = ["C%02d" % i for i in range(1, 21)]
 
 # id -> (category, technique, text, note, design_ref)
 CHECKS = {
+ "C01": ("exploration",
+         "bounded exhaustive enumeration: token strings up to 4/5 tokens, operators and built-ins over a boundary pool, nesting ladders in isolated child processes",
+         "Quick: all 6.4 M space-joined strings of 1..4 tokens over a 50-token alphabet (thorough: 1..5, 319 M), every operator over all ordered pairs of a 53-value boundary pool in literal and bound forms, every built-in function/macro/type name found in the repository's tables called as function and as method with every argument tuple of arity 0..2 (pool) and 3 (thorough: 4) over a 12-value pool plus 8 macro shapes, and 16 nesting constructs at depths 1..65536, each rung in its own child process, in two build profiles and on 8 MiB and 2 MiB stacks. Oracle: a value, an error or a syntax error - never a panic (caught at the API boundary), abort (signal) or hang. Complete for these bounds.",
+         "Trusted: catch_unwind + process exit status as observers. Inputs beyond the bounds are not explored. Cyclic program graphs are covered by C12's check. A known finding is keyed by construct, profile, stack size and depth class.",
+         "DESIGN.md section 3, C01"),
  "C03": ("exploration",
          "bounded exhaustive enumeration of operand pairs x operators x literal/bound forms x build profiles against an exact i128/IEEE reference model",
          "Every ordered pair of a boundary grid (quick 75 values, thorough 609: all +-2^k, +-2^k+-1, uint edges, 26 doubles incl. NaN/inf/-0/subnormals, one value per other type) under + - * / % and unary minus, in all four literal/bound forms and in two build profiles, is executed on the real compiler+VM and compared with exact arithmetic. Complete for the grid; says nothing about operands outside it.",
